@@ -6,11 +6,19 @@ K = "codelimit.common.CheckResult:CheckResult."
 def install(reg):
     reg.contract(
         K + "add", params={"file": "ext:Path", "measurements": "list[Measurement]"}, returns="None",
+        # what the statement needs: the counters always describe what is listed, and a file that is not listed yet gets listed.
+        # (Listing the very same path a second time is left open: an earlier, code-derived version of this contract demanded an
+        # append on every call and raised a false alarm on a consistent de-duplication.)
         ensures={
-            "hard": "self.hard_to_maintain == old(self.hard_to_maintain) + count_if(measurements, lambda m: cat(m.value) == 2)",
-            "unm": "self.unmaintainable == old(self.unmaintainable) + count_if(measurements, lambda m: cat(m.value) == 3)",
-            "listed": "len(self.file_list) == old(len(self.file_list)) + 1",
-            "listed_last": "self.file_list[len(self.file_list) - 1][1] is measurements",
+            "listed_and_counted_together":
+                "(len(self.file_list) == old(len(self.file_list)) + 1 and self.file_list[len(self.file_list) - 1][1] is measurements and "
+                "self.hard_to_maintain == old(self.hard_to_maintain) + count_if(measurements, lambda m: cat(m.value) == 2) and "
+                "self.unmaintainable == old(self.unmaintainable) + count_if(measurements, lambda m: cat(m.value) == 3)) or "
+                "(len(self.file_list) == old(len(self.file_list)) and self.hard_to_maintain == old(self.hard_to_maintain) and "
+                "self.unmaintainable == old(self.unmaintainable))",
+            "a_file_not_listed_yet_is_listed":
+                "implies(not old(exists(0, len(self.file_list), lambda k: self.file_list[k][0] == file)), "
+                "len(self.file_list) == old(len(self.file_list)) + 1 and self.file_list[len(self.file_list) - 1][0] is file)",
         },
         modifies=["self.hard_to_maintain", "self.unmaintainable", "self.file_list[]"],
         props=("C02",),
